@@ -328,3 +328,15 @@ MUTANTS += [
   "old": "                expr = expr.subs(killable, preferred)\n                if len(deltas) > 1:\n                    return evaluate_deltas(expr, target_idx)",
   "new": "                expr = expr.subs(killable, preferred)\n                if len(deltas) > 1:\n                    return evaluate_deltas(expr)"},
 ]
+
+MUTANTS += [
+ {"id": "c18-latex-delta-separator", "prop": "C18", "file": "adcgen/sympy_objects.py",
+  "old": "\"\\\\delta_{\" + \" \".join(s._latex(printer) for s in self.args) + \"}\"",
+  "new": "\"\\\\delta_{\" + \"\".join(s._latex(printer) for s in self.args) + \"}\""},
+ {"id": "c18-latex-index-spin", "prop": "C18", "file": "adcgen/indices.py",
+  "old": "            spin = \"alpha\" if spin == \"a\" else \"beta\"",
+  "new": "            spin = \"alpha\" if spin == \"b\" else \"beta\""},
+ {"id": "c18-latex-upper-lower", "prop": "C18", "file": "adcgen/sympy_objects.py",
+  "old": "            \"\".join([i._latex(printer) for i in self.args[1]]),\n            \"\".join([i._latex(printer) for i in self.args[2]])",
+  "new": "            \"\".join([i._latex(printer) for i in self.args[2]]),\n            \"\".join([i._latex(printer) for i in self.args[1]])"},
+]
